@@ -417,6 +417,9 @@ func genPipe(c *reg.Ctx) pipe {
 				p.BigPad = true
 			}
 			st = genSends(c, k, nv, nb)
+			if k > 0 {
+				early = true // ignores its input
+			}
 			if nv+nb > maxItems {
 				maxItems = nv + nb
 			}
